@@ -262,7 +262,7 @@ theorem reload_code_eq_ideal (specs : List (SrcSpec α)) (hc : specs.all specCle
 
 /-- the MDQ answer is one on which code and reference behave alike -/
 def fetchClean (cert : Bool) (f : Fetch α) : Prop :=
-  ∀ d, f = .doc d → cert = true → d.sig = .valid
+  ∀ d, f = .doc d → cert = true → d.sig ≠ .unsigned
 
 theorem mdxFetch_code_eq_ideal {s : Source α} {resp : Fetch α} (hc : fetchClean s.cert resp)
     (p2 : α) (now : Int) (eid : α) (ents : EntMap α) :
@@ -279,13 +279,7 @@ theorem mdxFetch_code_eq_ideal {s : Source α} {resp : Fetch α} (hc : fetchClea
     | error _ => rfl
     | ok m =>
       simp only
-      have hk : ∀ pol : Policy, checkSig pol .mdq s.cert d.sig = true := by
-        intro pol
-        unfold checkSig
-        cases hcert : s.cert with
-        | false => rfl
-        | true => rw [h1 hcert]; rfl
-      rw [hk, hk]
+      rw [checkSig_code_eq_ideal .mdq s.cert d.sig (fun h => h1 h.1 h.2)]
       rfl
 
 theorem mdxGet_code_eq_ideal {s : Source α} {resp : Fetch α} (hc : fetchClean s.cert resp)
@@ -368,7 +362,7 @@ theorem srcClean_of_cleanStep {c : Consts α} {st : Store α} {l : List (MdqResp
     have h1 := List.all_eq_true.mp h r hr
     unfold respClean at h1
     rw [hd] at h1
-    simp only [Bool.or_eq_true, Bool.not_eq_true', decide_eq_true_eq] at h1
+    simp only [Bool.or_eq_true, Bool.not_eq_true', decide_eq_false_iff_not] at h1
     rcases h1 with h2 | h2
     · have : st.any (fun s => decide (s.kind = .mdq) && s.cert && decide (s.key = r.src)) = true :=
         List.any_eq_true.mpr ⟨s, hs, by simp [hk, hcert, hsrc]⟩
